@@ -174,6 +174,9 @@ func run(r *ev.Run) {
 	}
 	n++
 	bigJobs = append(bigJobs, job{id: fmt.Sprintf("s%d", n), spec: sp("encrypt", nil, mem(), mem()), path: "direct", big: true})
+	// the encrypting store adds bytes to what it stores below: both sides of the limit once more
+	n++
+	bigJobs = append(bigJobs, job{id: fmt.Sprintf("s%d", n), spec: sp("encrypt", nil, sp("localdisk", nil), mem()), path: "receive", big: true})
 
 	bd := newBigData(r)
 	var wg sync.WaitGroup
